@@ -51,7 +51,7 @@ impl BytesSerializable for LoginWithPersonalAccessToken {
     }
 
     fn from_bytes(bytes: Bytes) -> Result<LoginWithPersonalAccessToken, IggyError> {
-        if bytes.len() < 4 {
+        if bytes.len() < 2 {
             return Err(IggyError::InvalidCommand);
         }
 
